@@ -84,6 +84,18 @@ def task_events(info, entry_ev):
     return out
 
 
+def early_returns(info, entry_ev):
+    """Explicit `return` statements of the task function itself, inside the activation started by entry_ev,
+    with the guards that were added inside the task."""
+    import ast as _ast
+    out = []
+    for ev in task_events(info, entry_ev):
+        if ev.kind == "return" and ev.fi in info.task_fis and isinstance(ev.node, _ast.Return):
+            extra = [g for g in ev.guards if g not in entry_ev.guards]
+            out.append((ev, extra))
+    return out
+
+
 def closure_of(info, task_fi):
     for cid, clo in info.I.closures.items():
         if clo.fi is task_fi:
